@@ -26,6 +26,10 @@
 #include <algorithm>
 #include <cinttypes>
 #include <cstring>
+#include <chrono>
+#include <condition_variable>
+#include <mutex>
+#include <thread>
 #include <ctime>
 #include <exception>
 #include <fcntl.h>
@@ -594,6 +598,37 @@ int run_main(int argc, char **argv) {
     }
     return 0;
 }
+
+// ---- watchdog ------------------------------------------------------------------------------------
+// For phases that can spin forever when the code under test is broken (threads racing on a corrupted chain). Running out of
+// time is not an oracle: the process leaves with exit code 5, which the driver records as "inconclusive", so that the other
+// processes of the run are not held up until the driver's own safety net (3000 s) cuts in.
+struct Watchdog {
+    std::mutex              m;
+    std::condition_variable cv;
+    bool                    done{false};
+    std::thread             t;
+    explicit Watchdog(unsigned seconds, const char *what) {
+        t = std::thread([this, seconds, what]() {
+            std::unique_lock<std::mutex> lk(m);
+            if (!cv.wait_for(lk, std::chrono::seconds(seconds), [this]() { return done; })) {
+                fprintf(stderr, "WATCHDOG: %s did not finish within %u s (inconclusive, not a verdict)\n", what, seconds);
+                if (global_ctx() != nullptr) {
+                    global_ctx()->write_stats();
+                }
+                _exit(5);
+            }
+        });
+    }
+    ~Watchdog() {
+        {
+            std::lock_guard<std::mutex> lk(m);
+            done = true;
+        }
+        cv.notify_all();
+        t.join();
+    }
+};
 
 // ---- coverage-guided mode (libFuzzer) ----------------------------------------------------------
 // Every harness whose cases are decoded from a byte string can also be driven by libFuzzer: the fuzzer's bytes become
